@@ -305,6 +305,9 @@ pub fn run(ctx: &Ctx) -> i32 {
     let tier = ctx.tier;
     let mut cases = fam_for(tier, "C01");
     cases.extend(dl_grid_cases().into_iter().filter(|c| c.g.loop_number(c.g.full()) <= 3 && c.g.dim <= 4));
+    // size ladder (beyond 6 loops / 8 edges / 64 signature entries): fixed sector subset, strided one-deviation points
+    let n_regular = cases.len();
+    cases.extend(large_cases(tier));
     let roles = Roles { u: true, xi: true, p: true, ab: true, xi_moderate: true, xi_ladder: false };
     let k = tier.pick(1, 2);
     let mut acc = par_for(cases.len(), |i, acc| {
@@ -318,11 +321,18 @@ pub fn run(ctx: &Ctx) -> i32 {
             Err(_) => return,
         };
         let ne = case.g.ne();
-        let sectors = all_sectors(ne);
-        let per_sector = sector_points(&case, &sectors[0], k, &roles).len() * 2;
-        let budget = (tier.pick(1500, 6000) / (case.nl * case.nl).max(1)).max(per_sector);
+        let large = i >= n_regular;
+        let sectors = if large { sector_subset(ne, false) } else { all_sectors(ne) };
+        let kk = if large { 1 } else { k };
+        let per_sector = sector_points(&case, &sectors[0], kk, &roles).len() * 2;
+        let budget = (tier.pick(1500, 4000) / (case.nl * case.nl).max(1)).max(per_sector);
         let fit = (budget / per_sector.max(1)).max(1);
-        let stride = (sectors.len() + fit - 1) / fit;
+        let stride = if large { 1 } else { (sectors.len() + fit - 1) / fit };
+        let max_pts = tier.pick(10usize, 60);
+        if large {
+            acc.inc("large_cases");
+            acc.hist("large_case_shape", &format!("{}-E{}L{}D{}", case.spec.label, ne, case.nl, case.g.dim));
+        }
         for (si, order) in sectors.iter().enumerate() {
             if si % stride != 0 {
                 continue;
@@ -333,7 +343,12 @@ pub fn run(ctx: &Ctx) -> i32 {
             }
             acc.inc("sectors");
             let trop = route_via(&case, &case.tropical_kin(order)).ok();
-            for (x, _) in sector_points(&case, order, k, &roles) {
+            let pts = sector_points(&case, order, kk, &roles);
+            let pstep = if large { ((pts.len() + max_pts - 1) / max_pts).max(1) } else { 1 };
+            for (pi, (x, _)) in pts.into_iter().enumerate() {
+                if pi != 0 && pi % pstep != 0 {
+                    continue;
+                }
                 c01_point(&case, &base, &x, acc);
                 if let Some(t) = &trop {
                     c01_point(&case, t, &x, acc);
